@@ -430,8 +430,7 @@ def expected_hits(case):
                         hits = [0]
             elif step["var"] < len(vals) and mode != "static":
                 vals[step["var"]] = step["val"]
-            elif step["var"] < len(vals):
-                assert vals[step["var"]] == step["val"]
+            # static: the step re-sends the value the variable already has, or writes an unrelated key
         elif step["op"] == "ev" and mode == "flowctor":
             # Done(id=j) finishes the running child instance j (once): its FlowFinished event carries the flow parameter x=j
             j = step["target"]
